@@ -24,6 +24,12 @@ CHECKS["C19"] = dict(technique="in-process invariant monitor (span algebra) on t
 CHECKS["C20"] = dict(technique="in-process reference-model monitor: every op sequence replayed through the real history API vs an executable file model, checked after every step; process-level multi-session runs",
    text="All operation sequences up to length 6 (quick) / 7 (thorough) over 9 history operations plus random longer ones run through Shell::add_to_history / save_history / History::import / remove / clear with fresh Shells as new sessions; file and session list compared with an executable model after each step, plus exactly-once / order / timestamp-attachment invariants; `brush -o history` sessions on stdin at the process boundary.",
    note="timestamp values normalised; #-leading commands excluded from exactly-once as the statement says; model is ~40 lines and is itself the trusted base", ref="5 C20", engine="harness")
+CHECKS["C07"] = dict(technique="differential runtime monitor with two references (bash and a Python wrapping-int64 evaluator); all operator pairs rendered without redundant parentheses; in-process parse+eval fast path",
+   text="Every (parent, child, side) pair of the 19 binary and 4 unary operators, ternary, assignment forms and side-effect-order probes rendered with minimal parentheses (what exposes a precedence/associativity change), plus random trees to depth 4 over boundary literals in all bases and variables holding numbers/names/expressions, evaluated by the real brush in $(( )), (( )), let, array subscripts and substring offsets and compared with bash (value, error/no-error, final variable values); an in-process layer runs brush_parser+Shell::eval_arithmetic on a much larger random set against the Python evaluator.",
+   note="a case is judged only when bash and the Python evaluator agree; assignment to non-lvalues, -i attribute evaluation and tokenizer problems with << / metacharacters inside ${ } and (( )) are open findings with canaries (C07-F1..F5)", ref="5 C07")
+CHECKS["C08"] = dict(technique="differential runtime monitor: match bitmaps over pattern x string arrays (case, [[ == ]]) and pathname-expansion result lists vs bash; Python reference matcher cross-checked",
+   text="All patterns up to length 3 (quick) / 4 (thorough) over {a b * ? [ ] ! ^ - \\} against all strings up to the same length over {a b ] - newline A}, well-formed extglob patterns, random patterns with classes/ranges/extglob/multi-byte subjects, with nocasematch and quoted-literal variants, all through the real binary's `case` and `[[ ]]`; pathname expansion over directory trees from subsets of 14 names x 60 globs (incl. quoted segments, dot-files) x 8 option sets, compared with bash including order.",
+   note="bash 5.2.15 under C.utf8 authoritative; open findings: POSIX classes are ASCII-only (C08-F1), negated extglob groups in context (C08-F2); nocase ranges and degenerate empty extglob groups are not generated", ref="5 C08")
 NA = {}
 
 def main():
